@@ -252,13 +252,6 @@ def _unconvertible_reason(node: ir.Node, node_version: int, target_version: int)
     and 23+ do not. An int32 x with a floating point y_scale cannot be expressed in
     opsets 19-22 without changing the result.
     """
-    if node_version < SUPPORTED_MIN_ONNX_OPSET:
-        # No adapters exist below the supported range: re-stamping the node would silently
-        # produce an invalid model (e.g. Squeeze-11 with its `axes` attribute under opset 18).
-        return (
-            f"opsets below {SUPPORTED_MIN_ONNX_OPSET} are not supported by the onnxscript "
-            "version converter (use fallback=True to convert with the ONNX C API)"
-        )
     if node.op_type == "QuantizeLinear" and node_version < 19 <= target_version < 23:
         x = _get_input(node, 0)
         y_scale = _get_input(node, 1)
@@ -382,6 +375,18 @@ class _VersionConverter:
         for node in ir.traversal.RecursiveGraphIterator(graph_or_function):
             if node.domain != "":
                 continue
+            if default_opset is not None and default_opset < SUPPORTED_MIN_ONNX_OPSET:
+                # No adapters exist below the supported range: re-stamping the nodes would
+                # silently produce an invalid model (e.g. Squeeze-11 with its `axes` attribute
+                # under opset 18). The opset the container imports decides, not node.version:
+                # exporters stamp nodes with the version their schema was introduced in
+                # (e.g. 13) inside a model that imports a supported opset.
+                raise VersionConverterError(
+                    f"Cannot convert node {node.name!r} from opset {default_opset} to "
+                    f"{self._target_version}: opsets below {SUPPORTED_MIN_ONNX_OPSET} are not "
+                    "supported by the onnxscript version converter (use fallback=True to "
+                    "convert with the ONNX C API)."
+                )
             node_version = node.version or default_opset
             if node_version is None:
                 continue
